@@ -9,9 +9,11 @@ struct RunResult {
     uint64_t sig = 0;
     bool nontrivial = false;
     uint64_t ops = 0, steps = 0, fault_fired = 0;
+    std::vector<uint32_t> allocs;      // per step: allocations attempted by the library call (filled when want_allocs)
+    std::vector<uint8_t> skipped;
 };
 
-RunResult run_plan(const Plan &plan, Stats *total);
+RunResult run_plan(const Plan &plan, Stats *total, bool want_allocs = false);
 Plan gen_plan(int prop, uint64_t runseed);
 void set_fatal_ctx(const Ctx &c, const Op &op);
 extern uint64_t g_run_index;     // index of the run being executed (goes into FATAL lines)
@@ -19,6 +21,6 @@ extern uint64_t g_run_index;     // index of the run being executed (goes into F
 // C19 fault enumeration (enum19.cpp)
 struct EnumTotals { uint64_t cells = 0, alloc_points = 0, executions = 0, max_k = 0; };
 typedef bool (*EnumVisit)(const Plan &plan, const char *cell, unsigned k, unsigned i, void *user);   // return false to stop
-void enum_c19(unsigned part, unsigned parts, EnumVisit visit, void *user, EnumTotals &tot);
+void enum_c19(unsigned part, unsigned parts, uint64_t from, EnumVisit visit, void *user, EnumTotals &tot);
 
 } // namespace A
